@@ -219,6 +219,11 @@ def position_bound_trace():
         note="feedback term recovered from the returned thrust vector zB*nT (from_Matrix by contract); nominal thrust branch; relative slack 1e-12 on the limit for the constant 0.3*m*g evaluated in doubles")
 
 
+def alg_rotvec(name):
+    from cyverif.sorts import RotVec
+    return RotVec(name, 2, 0.2, 3.0)
+
+
 def error_law_traces(tier):
     T = []
     f_att = rdd2.derive_attitude_control()["attitude_control"]
@@ -227,16 +232,37 @@ def error_law_traces(tier):
         f_err = rdd2_loglinear.derive_se23_error()["se23_error"]
         f_se23att = rdd2_loglinear.derive_outerloop_control()["se23_attitude_control"]
 
-    def b_att(kp, q, q_r):
-        omega = f_att(kp, q, q_r)
-        e = f_att(ca.SX.ones(3, 1), q, q_r)  # unit gains: the error itself
-        reach = spec.R_quat(q) @ SO3Quat.elem(SO3Quat.exp(so3.elem(e)).param).to_Matrix()
-        return {"omega": omega, "kp_e": kp * e, "reach": reach, "M_r": spec.R_quat(q_r)}
+    from cyecca.lie.group_so3 import SO3QuatLieGroup
 
-    T.append(_Trace("C15.attitude_control", [Free("kp", 3), UnitQuat("q"), UnitQuat("q_r")], b_att, [
-        Ob("omega = kp (elementwise) * e", "omega", "kp_e"),
-        Ob("reach: applying the commanded rotation e to the measured attitude gives the reference: R(q) exp(e) = R(q_r)", "reach", "M_r")],
-        functions=[rdd2.derive_attitude_control], decide=CLOSED, budget_s=600))
+    @contextlib.contextmanager
+    def stub_qlog(store, Y):
+        """SO3Quat.log by contract (C03: exp(log X) = X as rotations, principal rotation vector): records the argument"""
+        real = SO3QuatLieGroup.log
+
+        def stub(self, arg):
+            store.append(arg.param)
+            return so3.elem(Y)
+
+        SO3QuatLieGroup.log = stub
+        try:
+            yield
+        finally:
+            SO3QuatLieGroup.log = real
+
+    def b_att(kp, q, q_r, Y):
+        Yi = ca.SX.sym("Yi", 3)
+        with contextlib.redirect_stdout(io.StringIO()):
+            aux, n_out, n_cap = derive_with_stub(rdd2.derive_attitude_control, "attitude_control", stub_qlog, Yi)
+        assert n_cap == 1, f"log called {n_cap} times"
+        omega, X = aux(kp, q, q_r, Y)
+        return {"omega": omega, "kp_e": kp * Y, "reach": spec.R_quat(q) @ spec.R_quat(X), "M_r": spec.R_quat(q_r), "Xn": ca.dot(X, X), "one": ca.SX.ones(1, 1)}
+
+    T.append(_Trace("C15.attitude_control", [Free("kp", 3), UnitQuat("q"), UnitQuat("q_r"), Free("Y", 3)], b_att, [
+        Ob("omega = kp (elementwise) * e, e the result of SO3Quat.log returned unchanged", "omega", "kp_e"),
+        Ob("call site: log receives the unit quaternion X with R(q) R(X) = R(q_r)  (so that, by the log contract, applying the commanded rotation e to the measured attitude gives the reference)", "reach", "M_r"),
+        Ob("call site: the argument of log is a unit quaternion", "Xn", "one")],
+        functions=[rdd2.derive_attitude_control], budget_s=600, lemmas=["callee-contract C03.SO3Quat.rt1 (exp(log X) = X) and principal"],
+        note="modular: SO3Quat.log by contract; with it R(q) exp(e) = R(q) R(X) = R(q_r)"))
 
     def b_zero(kp, q):
         return {"same": f_att(kp, q, q), "opp": f_att(kp, q, -q), "so3_same": f_so3(kp, q, q), "so3_opp": f_so3(kp, q, -q)}
@@ -246,14 +272,19 @@ def error_law_traces(tier):
         Ob("so3 law: zero when q_r = q", "so3_same", None), Ob("so3 law: zero when q_r = -q", "so3_opp", None)],
         functions=[rdd2.derive_attitude_control, rdd2_loglinear.derive_so3_attitude_control], decide=None, budget_s=300))
 
-    def b_so3(kp, q, q_r):
-        omega = f_so3(kp, q, q_r)
-        e = f_att(ca.SX.ones(3, 1), q, q_r)
-        return {"omega": omega, "law": so3.elem(e).left_jacobian() @ (kp * e)}
+    def b_so3(kp, q, q_r, Y):
+        Yi = ca.SX.sym("Yi", 3)
+        with contextlib.redirect_stdout(io.StringIO()):
+            aux, n_out, n_cap = derive_with_stub(rdd2_loglinear.derive_so3_attitude_control, "so3_attitude_control", stub_qlog, Yi)
+        assert n_cap == 1, f"log called {n_cap} times"
+        omega, X = aux(kp, q, q_r, Y)
+        return {"omega": omega, "law": so3.elem(Y).left_jacobian() @ (kp * Y), "reach": spec.R_quat(q) @ spec.R_quat(X), "M_r": spec.R_quat(q_r)}
 
-    T.append(_Trace("C15.so3_attitude_control", [Free("kp", 3), UnitQuat("q"), UnitQuat("q_r")], b_so3,
-                    [Ob("omega = J_l(e) diag(kp) e with e = log(X^-1 X_r)", "omega", "law")],
-                    functions=[rdd2_loglinear.derive_so3_attitude_control], decide=CLOSED, budget_s=600))
+    T.append(_Trace("C15.so3_attitude_control", [Free("kp", 3), UnitQuat("q"), UnitQuat("q_r"), alg_rotvec("Y")], b_so3,
+                    [Ob("omega = J_l(e) diag(kp) e with e the result of SO3Quat.log", "omega", "law"),
+                     Ob("call site: log receives X with R(q) R(X) = R(q_r)", "reach", "M_r")],
+                    functions=[rdd2_loglinear.derive_so3_attitude_control], decide=CLOSED, budget_s=600,
+                    lemmas=["callee-contract C03.SO3Quat.rt1 (exp(log X) = X) and principal"], note="modular: SO3Quat.log by contract"))
 
     from cyecca.lie.group_se23 import SE23LieGroup
 
